@@ -18,10 +18,18 @@ type Bits struct {
 func FromBytes(b []byte) *Bits { return &Bits{B: append([]byte(nil), b...), N: 8 * len(b)} }
 
 // Get returns bit i.
-func (b *Bits) Get(i int) uint64 { return uint64(b.B[i>>3]>>(7-uint(i&7))) & 1 }
+func (b *Bits) Get(i int) uint64 {
+	if i < 0 || i>>3 >= len(b.B) {
+		return 0
+	}
+	return uint64(b.B[i>>3]>>(7-uint(i&7))) & 1
+}
 
 // Set sets bit i.
 func (b *Bits) Set(i int, v uint64) {
+	if i < 0 || i>>3 >= len(b.B) {
+		return // positions beyond a truncated image are ignored
+	}
 	m := byte(1) << (7 - uint(i&7))
 	if v&1 == 1 {
 		b.B[i>>3] |= m
@@ -31,7 +39,11 @@ func (b *Bits) Set(i int, v uint64) {
 }
 
 // Flip flips bit i.
-func (b *Bits) Flip(i int) { b.B[i>>3] ^= byte(1) << (7 - uint(i&7)) }
+func (b *Bits) Flip(i int) {
+	if i >= 0 && i>>3 < len(b.B) {
+		b.B[i>>3] ^= byte(1) << (7 - uint(i&7))
+	}
+}
 
 // Read reads n bits at pos.
 func (b *Bits) Read(pos, n int) (uint64, error) {
